@@ -192,7 +192,14 @@ func (p *Parser) Parse() (*Nexus, error) {
 			}
 			// We translate taxa labels if needed
 			if p.translationTable != nil {
-				if err2 := t.Rename(p.translationTable); err2 != nil {
+				// The translate table concerns taxa only: internal node names are
+				// kept (and may be repeated, which Rename refuses)
+				for _, tip := range t.Tips() {
+					if name, ok := p.translationTable[tip.Name()]; ok {
+						tip.SetName(name)
+					}
+				}
+				if err2 := t.UpdateTipIndex(); err2 != nil {
 					return nil, err2
 				}
 			}
